@@ -270,6 +270,35 @@ def defect_after_healthy_stage(ck, stats):
         sb.cleanup()
 
 
+def many_defective_stage(ck, stats):
+    """error isolation does not wear out: 120 messages refused for their names (invalid flag suffix) are walked before the healthy ones, under a
+    descriptor limit of 40 - every refusal releases what it opened, the healthy messages and the second maildir are still processed"""
+    sb = mdrun.Sandbox()
+    dst = os.path.join(sb.root, 'dst'); os.makedirs(dst)
+    for d in ('ok', 'ok2'):
+        for s_ in ('new', 'cur'):
+            os.makedirs(os.path.join(dst, d, s_))
+    src = sb.maildir('src0'); src1 = sb.maildir('src1')
+    for i in range(120):
+        name, content = make_message('flags-bad', i)
+        sb.add(src, 'new', content, name=name, mtime=1500000000)
+    healthy = []
+    for i, (md, sub) in enumerate([(src, 'cur'), (src, 'cur'), (src1, 'new'), (src1, 'cur')]):
+        name, content = make_message('plain', 500 + i)
+        sb.add(md, sub, content, name=name, mtime=1500000000)
+        healthy.append(content)
+    conf = sb.write_conf((CONF % {'src': src, 'dst': dst}) + (CONF % {'src': src1, 'dst': dst}))
+    rc, out, err = sb.run([], conf=conf, wrapper=['sh', '-c', 'ulimit -n 40; exec "$@"', 'sh'])
+    stats['runs'] += 1
+    got = list(sb.snapshot(os.path.join(dst, 'ok')).values())
+    nleft = len(sb.snapshot(src))
+    if rc == 0 or sorted(got) != sorted(healthy) or nleft != 120:
+        ck.violation('120 messages with an invalid flag suffix followed by 4 healthy ones in two maildirs, 40 descriptors allowed: %d healthy message(s) processed, '
+                     '%d left in the first maildir, exit %d (%r)' % (len([g for g in got if g in healthy]), nleft, rc, err[-200:]),
+                     {'config': open(conf).read()[:600], 'exit': rc, 'stderr': err[-600:].decode(errors='replace')})
+    sb.cleanup()
+
+
 def unusable_stage(ck, stats):
     """maildirs that cannot be used (missing, a file, new/ or cur/ missing or a file) next to a healthy one, and commands that
     exist but cannot be executed: a non-zero status, the healthy maildir still processed"""
@@ -388,6 +417,7 @@ def run(ck):
         stdin_run(ck, stats, case, i)
     stdin_fault_runs(ck, stats)
     defect_after_healthy_stage(ck, stats)
+    many_defective_stage(ck, stats)
     unusable_stage(ck, stats)
     ck.coverage.update({
         'evaluations': stats['runs'],
